@@ -129,6 +129,15 @@ func c04Config(seed uint64, c int) (*SendScenario, []c04Pos) {
 		ms.From = ""
 		batch = append(batch, ms)
 	}
+	if r.Chance(1, 8) {
+		// a message with a sender and no recipient at all, somewhere in the batch
+		ms := SimpleMsg("norcpt", "x@dest.example")
+		ms.To = nil
+		at := r.Intn(len(batch) + 1)
+		nb := append([]MsgSpec(nil), batch[:at]...)
+		nb = append(nb, ms)
+		batch = append(nb, batch[at:]...)
+	}
 	sc.Batches = [][]MsgSpec{batch}
 	if sc.Op == "send" && r.Chance(1, 4) {
 		// a second Send call on the same connection
